@@ -1708,3 +1708,162 @@ Proof. reflexivity. Qed.
 Lemma def_closed_sched L Fs Os sched :
   closed_sched L Fs Os sched <-> sched_ok (map r_id Fs) (r_id L) sched (L, Fs, Os, []).
 Proof. reflexivity. Qed.
+
+(* ------------------------------------------------------------------ *)
+(* index-level schedules: an outsider step names the pool message by its position, so
+   that the validity of a concrete schedule can be computed *)
+
+Inductive iact := IStepK (i k : nat) | ITickK (i : nat).
+
+Fixpoint res_acts (st : list raft * list msg) (ia : list iact)
+  : option (list oact * (list raft * list msg)) :=
+  match ia with
+  | [] => Some ([], st)
+  | a :: rest =>
+      let oa := match a with
+                | IStepK i k => match nth_error (snd st) k with
+                                | Some m => if m_type m =? MsgSnapshot then None else Some (OStep i m)
+                                | None => None
+                                end
+                | ITickK i => Some (OTick i)
+                end in
+      match oa with
+      | None => None
+      | Some a' =>
+          match oact_apply st a' with
+          | Ok st' => match res_acts st' rest with
+                      | Some (acts, stf) => Some (a' :: acts, stf)
+                      | None => None
+                      end
+          | Panic _ => None
+          end
+      end
+  end.
+
+Lemma res_acts_ok ids l : forall ia st acts stf,
+  res_acts st ia = Some (acts, stf) -> oacts_ok ids l st acts /\ oacts_apply st acts = Ok stf.
+Proof.
+  induction ia as [|a rest IH]; intros st acts stf H; cbn [res_acts] in H.
+  - injection H as <- <-. split; [exact I|reflexivity].
+  - set (oa := match a with IStepK i k => _ | ITickK i => _ end) in H.
+    destruct oa as [a'|] eqn:Eoa; [|discriminate].
+    destruct (oact_apply st a') as [st'|s] eqn:Eap; [|discriminate].
+    destruct (res_acts st' rest) as [[acts' stf']|] eqn:Er; [|discriminate].
+    injection H as <- <-. destruct (IH _ _ _ Er) as [A B].
+    split; [|cbn [oacts_apply]; rewrite Eap; exact B].
+    cbn [oacts_ok]. split; [|intros st'' E; rewrite Eap in E; injection E as <-; exact A].
+    destruct a as [i k|i]; subst oa.
+    + destruct (nth_error (snd st) k) as [m|] eqn:En; [|discriminate].
+      destruct (m_type m =? MsgSnapshot) eqn:Es; [discriminate|]. injection Eoa as <-.
+      cbn [oact_ok]. split; [eapply nth_error_In; exact En|].
+      intros C. apply N.eqb_neq in Es. contradiction.
+    + injection Eoa as <-. exact I.
+Qed.
+
+Fixpoint res_adv (mem : list N) (pool : list msg) (ks : list nat) : option (list (N * msg)) :=
+  match ks with
+  | [] => Some []
+  | k :: rest =>
+      match nth_error pool k with
+      | Some m =>
+          if negb (IdSet.mem (m_from m) mem) && IdSet.mem (m_to m) mem then
+            match res_adv mem pool rest with
+            | Some adv => Some ((m_to m, m) :: adv)
+            | None => None
+            end
+          else None
+      | None => None
+      end
+  end.
+
+Lemma res_adv_ok ids l pool : forall ks adv,
+  res_adv (l :: ids) pool ks = Some adv -> adv_from_pool ids l pool adv.
+Proof.
+  induction ks as [|k rest IH]; intros adv H; cbn [res_adv] in H.
+  - injection H as <-. constructor.
+  - destruct (nth_error pool k) as [m|] eqn:En; [|discriminate].
+    destruct (negb (IdSet.mem (m_from m) (l :: ids)) && IdSet.mem (m_to m) (l :: ids)) eqn:Ec; [|discriminate].
+    destruct (res_adv (l :: ids) pool rest) as [adv'|] eqn:Er; [|discriminate].
+    injection H as <-. apply andb_prop in Ec. destruct Ec as [E1 E2].
+    constructor; [|apply IH; reflexivity]. cbn [fst snd].
+    split; [eapply nth_error_In; exact En|]. split.
+    + apply negb_true_iff in E1. intros C. apply IdSetProofs.mem_In in C. congruence.
+    + split; [apply IdSetProofs.mem_In; exact E2|reflexivity].
+Qed.
+
+Fixpoint res_sched (mem : list N) (st : cluster) (isch : list (list iact * list nat))
+  : option (list (list oact * list (N * msg))) :=
+  match isch with
+  | [] => Some []
+  | (ia, ks) :: rest =>
+      match res_acts (snd (fst st), snd st) ia with
+      | Some (acts, stf) =>
+          match res_adv mem (snd stf) ks with
+          | Some adv =>
+              match closed_round acts adv st with
+              | Ok st' => match res_sched mem st' rest with
+                          | Some s => Some ((acts, adv) :: s)
+                          | None => None
+                          end
+              | Panic _ => None
+              end
+          | None => None
+          end
+      | None => None
+      end
+  end.
+
+Lemma res_sched_ok ids l : forall isch st sched,
+  res_sched (l :: ids) st isch = Some sched -> sched_ok ids l sched st.
+Proof.
+  induction isch as [|[ia ks] rest IH]; intros st sched H; cbn [res_sched] in H.
+  - injection H as <-. exact I.
+  - destruct st as [[[L Fs] Os] pool]. cbn [fst snd] in H.
+    destruct (res_acts (Os, pool) ia) as [[acts stf]|] eqn:Ea; [|discriminate].
+    destruct (res_adv (l :: ids) (snd stf) ks) as [adv|] eqn:Ed; [|discriminate].
+    destruct (closed_round acts adv (L, Fs, Os, pool)) as [st'|s] eqn:Ec; [|discriminate].
+    destruct (res_sched (l :: ids) st' rest) as [s|] eqn:Er; [|discriminate].
+    injection H as <-. destruct (res_acts_ok ids l _ _ _ _ Ea) as [A B].
+    cbn [sched_ok]. split.
+    + split; [exact A|]. intros op1 E. rewrite B in E. injection E as <-.
+      eapply res_adv_ok; exact Ed.
+    + intros st'' E. rewrite Ec in E. injection E as <-. apply IH. exact Er.
+Qed.
+
+(* ------------------------------------------------------------------ *)
+(* example: leader 1 and follower 2 against node 3, which is cut off for thirty rounds
+   (three election timeouts: it only ticks and pre-campaigns into the void) and then
+   rejoins for six rounds: its latest pre-vote requests reach the members, and the
+   members' latest messages (heartbeats, rejections) reach it *)
+
+Definition idxs (p : msg -> bool) (pool : list msg) : list nat :=
+  map fst (filter (fun km => p (snd km)) (combine (seq 0 (length pool)) pool)).
+
+Definition lastn {A} (n : nat) (xs : list A) : list A := skipn (length xs - n) xs.
+
+Definition xc_policy (n : nat) (st : cluster) : list iact * list nat :=
+  if (n <? 30)%nat then ([ITickK 0], [])
+  else
+    let pool := snd st in
+    (map (IStepK 0) (lastn 6 (idxs (fun m => m_to m =? 3) pool)) ++ [ITickK 0],
+     lastn 4 (idxs (fun m => (m_from m =? 3) && ((m_to m =? 1) || (m_to m =? 2))) pool)).
+
+Fixpoint xc_gen (fuel n : nat) (st : cluster) : list (list iact * list nat) :=
+  match fuel with
+  | O => []
+  | S f =>
+      let ik := xc_policy n st in
+      match res_sched [1; 2] st [ik] with
+      | Some [(acts, adv)] =>
+          match closed_round acts adv st with
+          | Ok st' => ik :: xc_gen f (S n) st'
+          | Panic _ => []
+          end
+      | _ => []
+      end
+  end.
+
+Definition xc_st0 : cluster := (xs_leader, [xw_F2], [xs_follower], []).
+Definition xc_isched : list (list iact * list nat) := xc_gen 36 0 xc_st0.
+Definition xc_sched : list (list oact * list (N * msg)) :=
+  match res_sched [1; 2] xc_st0 xc_isched with Some s => s | None => [] end.
